@@ -502,6 +502,26 @@ func init() {
 		m.p.B.ProposerSlashings = append(m.p.B.ProposerSlashings, ps)
 		return true
 	})
+	mut("pslash_pre_fork_headers_new_version", "pslash", func(m *mctx) bool {
+		// headers of a slot before the last fork epoch, signed under the state's CURRENT version (must be the previous one)
+		fe := m.p.lastForkEpoch()
+		if fe == 0 || uint64(len(m.p.B.ProposerSlashings)) >= uint64(m.c.Spec.MAX_PROPOSER_SLASHINGS) {
+			return false
+		}
+		v, ok := m.find(func(i common.ValidatorIndex, f *common.FlatValidator) bool { return m.p.slashable(i) })
+		if !ok {
+			return false
+		}
+		slot := common.Slot(fe)*m.c.Spec.SLOTS_PER_EPOCH - 1 - common.Slot(m.r.Intn(int(m.c.Spec.SLOTS_PER_EPOCH)))
+		ps := m.c.makeProposerSlashing(m.p, v, slot)
+		dom := common.ComputeDomain(common.DOMAIN_BEACON_PROPOSER, m.stateVersion(), m.c.GVR)
+		for _, h := range []*common.SignedBeaconBlockHeader{&ps.SignedHeader1, &ps.SignedHeader2} {
+			h.Signature = m.c.BLS.Sign1(m.c.keyOfVal(v), common.ComputeSigningRoot(h.Message.HashTreeRoot(hFn()), dom))
+		}
+		// the only proposer slashing of the block: a genuine pre-fork one next to it would mask the verdict under a defect
+		m.p.B.ProposerSlashings = phase0.ProposerSlashings{ps}
+		return true
+	})
 	mut("pslash_duplicate", "pslash", func(m *mctx) bool {
 		b := m.p.B
 		if uint64(len(b.ProposerSlashings))+2 > uint64(m.c.Spec.MAX_PROPOSER_SLASHINGS) {
@@ -617,6 +637,21 @@ func init() {
 		as := m.c.makeAttesterSlashing(m.p, []common.ValidatorIndex{a, b}, m.r.Bool())
 		ix := as.Attestation1.AttestingIndices // sorted by the maker; the aggregate signature does not depend on the order
 		ix[0], ix[1] = ix[1], ix[0]
+		m.p.B.AttesterSlashings = append(m.p.B.AttesterSlashings, as)
+		return true
+	})
+	mut("aslash_surround_reverse_order", "aslash", func(m *mctx) bool {
+		// attestation_1 is the surrounded (inner) vote, attestation_2 the surrounding one: is_slashable_attestation_data is
+		// not symmetric, in this order it is false
+		if uint64(len(m.p.B.AttesterSlashings)) >= uint64(m.c.Spec.MAX_ATTESTER_SLASHINGS) {
+			return false
+		}
+		v, ok := m.find(func(i common.ValidatorIndex, f *common.FlatValidator) bool { return m.p.slashable(i) })
+		if !ok {
+			return false
+		}
+		as := m.c.makeAttesterSlashing(m.p, []common.ValidatorIndex{v}, true)
+		as.Attestation1, as.Attestation2 = as.Attestation2, as.Attestation1
 		m.p.B.AttesterSlashings = append(m.p.B.AttesterSlashings, as)
 		return true
 	})
@@ -892,6 +927,34 @@ func init() {
 		}
 		return true
 	})
+	mut("att_pre_fork_target_new_version", "att", func(m *mctx) bool {
+		// an attestation whose target epoch lies before the last fork, re-signed under the state's current version
+		fe := m.p.lastForkEpoch()
+		if fe == 0 {
+			return false
+		}
+		for i := range m.p.B.Attestations {
+			a := &m.p.B.Attestations[i]
+			if a.Data.Target.Epoch >= fe {
+				continue
+			}
+			cm := m.committee(&a.Data)
+			bits := bitsOf(a.AggregationBits)
+			if cm == nil || len(cm) != len(bits) {
+				continue
+			}
+			var keys []KeyNum
+			for j, b := range bits {
+				if b {
+					keys = append(keys, m.c.keyOfVal(cm[j]))
+				}
+			}
+			dom := common.ComputeDomain(common.DOMAIN_BEACON_ATTESTER, m.stateVersion(), m.c.GVR)
+			a.Signature = m.c.BLS.Sign(keys, common.ComputeSigningRoot(a.Data.HashTreeRoot(hFn()), dom))
+			return true
+		}
+		return false
+	})
 	mut("att_duplicate", "accepted", func(m *mctx) bool {
 		b := m.p.B
 		if len(b.Attestations) == 0 || uint64(len(b.Attestations)) >= uint64(m.c.Spec.MAX_ATTESTATIONS) {
@@ -1027,6 +1090,22 @@ func init() {
 		}
 		ex := m.c.makeExit(m.p, v, m.p.Epoch)
 		b.VoluntaryExits = append(b.VoluntaryExits, ex, ex)
+		return true
+	})
+	mut("exit_pre_fork_epoch_new_version", "exit", func(m *mctx) bool {
+		// pre-deneb: the domain follows exit.epoch; an exit for an epoch before the last fork signed under the current version
+		fe := m.p.lastForkEpoch()
+		if fe == 0 || m.p.Fork >= Deneb {
+			return false
+		}
+		v, ok := m.find(func(i common.ValidatorIndex, f *common.FlatValidator) bool { return m.p.canExit(i) && !f.Slashed })
+		if !ok {
+			return false
+		}
+		ex := phase0.SignedVoluntaryExit{Message: phase0.VoluntaryExit{Epoch: fe - 1, ValidatorIndex: v}}
+		dom := common.ComputeDomain(common.DOMAIN_VOLUNTARY_EXIT, m.stateVersion(), m.c.GVR)
+		ex.Signature = m.c.BLS.Sign1(m.c.keyOfVal(v), common.ComputeSigningRoot(ex.Message.HashTreeRoot(hFn()), dom))
+		m.p.B.VoluntaryExits = phase0.VoluntaryExits{ex} // the only exit of the block
 		return true
 	})
 	mut("exit_already_initiated", "exit", func(m *mctx) bool {
@@ -1589,7 +1668,8 @@ func (c *Chain) CorruptStream(n int) {
 
 // MustHave: corruptions every chain should contain once when some honest step allows them.
 var MustHave = []string{"exit_same_twice", "exit_already_initiated", "aslash_duplicate_index_valid_signature",
-	"aslash_unsorted_valid_signature", "aslash_indices", "sync_sig_new_fork_version", "exit_too_young", "blschange_wrong_from_key",
+	"aslash_unsorted_valid_signature", "aslash_indices", "aslash_surround_reverse_order", "sync_sig_new_fork_version",
+	"pslash_pre_fork_headers_new_version", "exit_pre_fork_epoch_new_version", "att_pre_fork_target_new_version", "exit_too_young", "blschange_wrong_from_key",
 	"deposit_bad_proof", "payload_withdrawals", "att_out_of_inclusion_window"}
 
 func (c *Chain) corruptBase(hs HonestStep) (*ProposeCtx, common.BeaconState) {
